@@ -156,7 +156,8 @@ def run(
             raise MachineryError(f"unexpected model violation {res.violated} in {module}/{cfg}\n" + "\n".join(res.trace[:80]))
         return res
     if not finished:
-        raise MachineryError(f"TLC failed (rc={p.returncode}) for {module}/{cfg}:\n{out[-6000:]}")
+        i = out.find("Error:")
+        raise MachineryError(f"TLC failed (rc={p.returncode}) for {module}/{cfg}:\n{out[i:i+3000] if i >= 0 else out[-3000:]}")
     res.ok = True
     return res
 
